@@ -85,6 +85,49 @@ theorem encode_decode (v : Ver) (l : Str) (m : Msg) (h : decode v l = some m) (h
     · exact absurd h (by simp)
   · exact absurd h (by simp)
 
+/-! What one `Transport.write` may carry (`Gateway.send` vs transport write, also when several sends are on their way at
+once): a text made of the encodings of `k` messages has `k` newlines, so it is the one-line form iff `k = 1`, and then it
+is the encoding of that very message. -/
+
+/-- A text made of the encodings of the messages `ms` (payloads free of line terminators), one after the other,
+contains exactly as many newlines as there are messages. -/
+theorem joined_newlines (ms : List Msg) (h : ∀ m ∈ ms, '\n' ∉ m.payload) :
+    (ms.flatMap encode).count '\n' = ms.length := by
+  induction ms with
+  | nil => rfl
+  | cons m ms ih =>
+    have h1 := (encode_single_newline m (h m (List.mem_cons_self ..))).1
+    have h2 := ih (fun x hx => h x (List.mem_cons_of_mem _ hx))
+    simp only [List.flatMap_cons, List.count_append, h1, h2, List.length_cons]
+    omega
+
+/-- Two (or more) encoded messages in one text are never "exactly one line". -/
+theorem joined_not_one_line (a b : Msg) (rest : List Msg) (h : ∀ m ∈ a :: b :: rest, '\n' ∉ m.payload) :
+    ((a :: b :: rest).flatMap encode).count '\n' ≠ 1 := by
+  rw [joined_newlines _ h]
+  simp
+
+/-- **One write, one message.** If a text made of the encodings of the well-formed messages `ms` is the one-line form
+of a well-formed message `m`, then `ms` is `m` alone: a write that carries anything but the encoding of exactly the
+message being sent cannot decode back to it. -/
+theorem one_write_one_message (ms : List Msg) (m : Msg) (hms : ∀ x ∈ ms, WF x ∧ '\n' ∉ x.payload)
+    (hm : WF m) (hnl : '\n' ∉ m.payload) (h : ms.flatMap encode = encode m) : ms = [m] := by
+  have hc := joined_newlines ms (fun x hx => (hms x hx).2)
+  rw [h, (encode_single_newline m hnl).1] at hc
+  match ms, hms, h, hc with
+  | [x], hms, h, _ =>
+    have hx : WF x := (hms x (List.mem_singleton_self x)).1
+    have e : encode x = encode m := by simpa using h
+    have d := decode_encode .v22 x hx
+    rw [e, decode_encode .v22 m hm] at d
+    simp only [Option.some.injEq] at d
+    rw [d]
+  | [], _, _, hc => simp at hc
+  | _ :: _ :: _, _, _, hc => simp at hc
+
+example : ((([⟨1, 1, 1, 0, 2, "1".toList⟩, ⟨2, 7, 1, 1, 3, "55".toList⟩] : List Msg).flatMap encode).count '\n') = 2 := by
+  decide
+
 /-! Non-vacuity: concrete messages that satisfy `WF`. -/
 
 /-- A `V_POSITION`-style payload containing the delimiter. -/
